@@ -44,6 +44,14 @@ func (e *env) observeViews(c godi.Collection) Views {
 		}
 	}
 	v.Count = c.Count()
+	// ToSlice "returns a copy": what the caller does to the returned slice is the caller's
+	// business. A first copy is scribbled over (entries set to nil, as an in-place filter or
+	// sort would do) before the views are read from a second one.
+	if scratch := c.ToSlice(); len(scratch) > 0 {
+		for i := range scratch {
+			scratch[i] = nil
+		}
+	}
 	for _, d := range c.ToSlice() {
 		if d == nil {
 			v.SliceNil++
